@@ -119,14 +119,15 @@ type vc11Lookup struct {
 
 func TestVerifC11Filter(t *testing.T) {
 	st := vstat.New("C11", "hashprefix.filter",
-		"rapid histories: 1-3 focus hosts (5 suffix classes, 1-10 labels, 'bad'/prefix-twin registrable label), list versions "+
+		"rapid histories: 1-3 focus hosts (7 suffix entries incl. two private suffixes nested in a private zone, 1-10 labels, 'bad'/prefix-twin registrable label), list versions "+
 			"over every tail/child/twin of them (comments, blanks, duplicates, CRLF), lookups (13 qtypes) and refreshes through "+
 			"Filter.FilterRequest/Refresh with the result cache on; non-trivial = filterable qtype, host of >=3 labels, a proper "+
 			"ancestor among the must-candidates listed; distinct by (host, qtype, listed set)",
 		"match-ancestor", "match-self", "nomatch-only-public-suffix-listed", "nomatch-only-beyond-cut-listed",
 		"nomatch-prefix-twin-listed", "unfilterable-qtype-listed", "refresh-removed", "refresh-added", "relookup-same-version",
 		"sfx-private", "sfx-unlisted", "sfx-icann4", "near-miss-host", "near-miss-qtype", "near-miss-qtype-filterability",
-		"root-name", "match-private-suffix-itself", "match-unlisted-tld")
+		"root-name", "match-private-suffix-itself", "match-unlisted-tld", "sfx-nested-private",
+		"host-under-nested-private-suffix", "listed-outer-private-zone")
 	st.Finish(t)
 
 	if p := vc11SelfCheck(); p != "" {
@@ -321,6 +322,13 @@ func TestVerifC11Filter(t *testing.T) {
 			for _, s := range vc11Suffixes {
 				if len(n.labels) >= s.ps && n.vc11Tail(min(len(n.labels), s.ps)).String() == s.name {
 					classes = append(classes, s.class)
+					if s.outer > 0 && len(n.labels) > s.ps {
+						classes = append(classes, "host-under-nested-private-suffix")
+						outer := n.vc11Tail(s.outer).String()
+						if filterable && len(exp.mustListed) == 1 && exp.mustListed[0] == outer {
+							classes = append(classes, "listed-outer-private-zone")
+						}
+					}
 				}
 			}
 
